@@ -182,7 +182,7 @@ func propC18(e *Env) {
 			m := member(f)
 			switch {
 			case m && seen[f] == 0:
-				e.Fail("not-tailed", "patterns %v ignore %q, history [%s]: %s exists and matches but its new line was not delivered", patDesc, ignore, hist, rel(root, f))
+				e.Fail("not-tailed", "patterns %v ignore %q, history [%s]: %s exists and matches but its new line was not delivered; live tasks: %s", patDesc, ignore, hist, rel(root, f), liveString(e))
 			case m && seen[f] > 1:
 				e.Fail("double-tailed", "patterns %v ignore %q, history [%s]: the new line of %s was delivered %d times", patDesc, ignore, hist, rel(root, f), seen[f])
 			case !m && seen[f] > 0 && ignoreRe != nil && ignoreRe.MatchString(filepath.Base(f)):
@@ -297,6 +297,36 @@ func propC18(e *Env) {
 				desc = "nop"
 			} else {
 				e.Probe("directory_change")
+			}
+		case 6: // the file is replaced, and while its stream is somewhere in the middle of noticing that, deleted; later it is back
+			if fi, err := os.Lstat(f); err == nil && fi.Mode().IsRegular() {
+				os.Remove(f)
+				mustWrite(f, "", os.O_CREATE|os.O_WRONLY|os.O_EXCL)
+				r.sw.Tick()
+				// statement by statement, so that the delete can land between any two steps of the stream
+				sp, qt := e.S.StmtPreempt, e.S.Quanta
+				e.S.StmtPreempt, e.S.Quanta = true, []int{0}
+				k := e.Choose("gen", 400)
+				for j := 0; j < k; j++ {
+					if !e.S.Step() {
+						k = j
+						break
+					}
+				}
+				e.S.StmtPreempt, e.S.Quanta = sp, qt
+				os.Remove(f)
+				if !r.quiesce() {
+					return
+				}
+				r.sw.Tick()
+				if !r.quiesce() {
+					return
+				}
+				mustWrite(f, "", os.O_CREATE|os.O_WRONLY|os.O_EXCL)
+				desc = fmt.Sprintf("replace %s, stream poll, delete it %d scheduler steps into that poll, stream poll, re-create", rel(root, f), k)
+				e.Probe("delete_during_stream_poll")
+			} else {
+				desc = "nop"
 			}
 		default:
 			desc = "poll"
